@@ -5,16 +5,18 @@ import json, sys
 name, prop, variant = sys.argv[1:4]
 P = {json.loads(l)["id"]: json.loads(l) for l in open("/verif/properties.jsonl")}[prop]
 tried = {
- "C05": "off-by-one lane assertions / skipped truncation in A64 vector ops; rep-prefix handling on x86; dropped successor when target equals fall-through; Expression::sext accepting equal widths; RIP-relative overflow near 2^63; call $+5 special case; block-count bound in translate_function; MIPS sltu $zero fast path; A64 cbz on the zero register; merge leaving the entry dangling; MIPS delay-slot key changes; A64 end-of-window test accepting a partial word; x86 register-width check moved out of X86Register::set (lea with 0x67); Graph::remove_vertex leaving an edge of a 2-cycle; chaining edge only for newly inserted instructions",
- "C06": "work-list/overlapping-block exit bookkeeping; x86 out-of-bytes successor address; merge moving or swallowing the entry; get_bytes fast paths (stale backing, section end, skipped holes); chaining edge skipped for shared instructions; jcxz missing from the terminator list; guarded manual edge parallel to a jump; paged permissions without backing fallback; successors below the function address dropped; intrinsic path skipping length update; block-count cap (u16) in translate_function_extended; BlockTranslationResult::new de-duplicating successors; single-block fast path skipping the edge pass",
- "C07": "instruction index used as position / binary search over indices; eval short-circuits; mods power-of-two fast path; sext sign fill; on-demand lifting from a stale backing; page copy losing permissions; from_address fallback assuming sorted functions; Load fast path from the backing; branch targets wider than 64 bits truncated; intrinsics with empty read/write lists stepped over; SuccessorType::Intrinsic folded into fall-through; store_no_backref spill loop off by one; store fast path for untouched pages skipping overlap fix-ups",
- "C08": "Page clone losing permissions; store fast path for a fresh page; reassembly deciding from the first address or assuming two pages; PartialEq variants (subset test, missing backing, endianness); store skipped when a load already returns the value; backing endianness fast path; Backref cells dropped beyond the second page; shl constant folding for expressions; set_permissions page count; store_cell skipping un-sharing; backing set_memory boundary test (< vs <=) losing an adjacent section; page-level permission snapshot taken at first store; Value::trun looking through sext as zext; set_permissions skipping pages that already report the value",
+ "C05": "off-by-one lane assertions / skipped truncation in A64 vector ops; rep-prefix handling on x86; dropped successor when target equals fall-through; Expression::sext accepting equal widths; RIP-relative overflow near 2^63; call $+5 special case; block-count bound in translate_function; MIPS sltu $zero fast path; A64 cbz on the zero register; merge leaving the entry dangling; MIPS delay-slot key changes; A64 end-of-window test accepting a partial word; x86 register-width check moved out of X86Register::set (lea with 0x67); Graph::remove_vertex leaving an edge of a 2-cycle; chaining edge only for newly inserted instructions; PPC srawi zero-shift carry width; DisassemblyFailure of non-entry blocks swallowed",
+ "C06": "work-list/overlapping-block exit bookkeeping; x86 out-of-bytes successor address; merge moving or swallowing the entry; get_bytes fast paths (stale backing, section end, skipped holes); chaining edge skipped for shared instructions; jcxz missing from the terminator list; guarded manual edge parallel to a jump; paged permissions without backing fallback; successors below the function address dropped; intrinsic path skipping length update; block-count cap (u16) in translate_function_extended; BlockTranslationResult::new de-duplicating successors; single-block fast path skipping the edge pass; MIPS blez condition rewritten with a wrapping subtraction; lazily created placeholder blocks for unmapped addresses",
+ "C07": "instruction index used as position / binary search over indices; eval short-circuits; mods power-of-two fast path; sext sign fill; on-demand lifting from a stale backing; page copy losing permissions; from_address fallback assuming sorted functions; Load fast path from the backing; branch targets wider than 64 bits truncated; intrinsics with empty read/write lists stepped over; SuccessorType::Intrinsic folded into fall-through; store_no_backref spill loop off by one; store fast path for untouched pages skipping overlap fix-ups; a load cache in State; Constant::shr with amounts that do not fit usize",
+ "C08": "Page clone losing permissions; store fast path for a fresh page; reassembly deciding from the first address or assuming two pages; PartialEq variants (subset test, missing backing, endianness); store skipped when a load already returns the value; backing endianness fast path; Backref cells dropped beyond the second page; shl constant folding for expressions; set_permissions page count; store_cell skipping un-sharing; backing set_memory boundary test (< vs <=) losing an adjacent section; page-level permission snapshot taken at first store; Value::trun looking through sext as zext; set_permissions skipping pages that already report the value; store fast path when the cell already holds a value no wider; permissions() treating an existing page as authoritative",
 }[prop]
 variants = {
  "support": "The change must be made in a SUPPORTING module that the anchored code depends on rather than in the anchored functions themselves (for example the graph library under lib/graph, lib/il/block.rs, lib/il/function.rs, lib/il/constant.rs, lib/il/expression.rs, lib/il/program.rs, lib/il/control_flow_graph.rs helper methods, lib/memory/backing.rs, lib/memory/value.rs, lib/executor/eval.rs, lib/translator/block_translation_result.rs, lib/translator/options.rs, lib/architecture) - a helper whose contract is subtly changed so that only some callers on the property's path are affected.",
  "arch": "The change must be made in the architecture-specific code of ONE of the non-x86 lifters (lib/translator/ppc, lib/translator/aarch64 or lib/translator/mips: semantics helpers, operand decoding, register tables, the block loop) and must only affect particular operand combinations or encodings of otherwise well-tested instructions (for example the zero/stack register number, a shift or rotate amount of 0 or of the full width, a wrapping mask, a negative or maximal displacement, an update-form or pre/post-index addressing mode, a condition code that is rarely used) - not a whole instruction being wrong.",
  "readonly": "The change must make an operation that is supposed to be READ-ONLY or side-effect free (a load, an equality comparison, a permissions query, expression evaluation, a failed step, looking up a location, cloning) modify, cache or share state - or make a modifying operation touch more state than it should - so that the damage only shows in a LATER operation, possibly through another clone/fork of the same object.",
  "errpath": "The change must affect what happens ON or AFTER an error / absent / unsupported outcome: an error that is swallowed and replaced by a default, an Option that is unwrapped to a fallback, state that is partially modified before the error is returned, or an error raised for an input that is legal. The normal success paths that tests exercise must be untouched.",
+ "boundary": "The change must only misbehave at a NUMERIC BOUNDARY: address arithmetic at or across 0, 2^31, 2^32, 2^63 or 2^64-1, the first or last byte of a 1024-byte page or of a 64-byte translation window, a width of 1 bit or of more than 64 bits, a length or count of 0 or 1, a displacement that is exactly the minimum or maximum encodable value. Everywhere else it must behave exactly as before.",
+ "interplay": "The violation must need TWO FEATURES USED TOGETHER that are each well-behaved alone (for example: a backing plus permissions plus a clone; big-endian plus a page-crossing access; a program with several functions plus an indirect branch between them; manual edges plus overlapping blocks; the unsupported-instructions-as-intrinsics option plus a window boundary; the big-endian variant of a translator plus a particular addressing mode). Using either feature alone must behave exactly as before.",
  "perf": "The change must look like a PERFORMANCE OPTIMISATION (a cache or memoisation that can go stale, an early exit, a fast path for the common case, avoiding a clone or an allocation, replacing a general loop by a closed form) that is correct for the common case and wrong in a corner that needs a specific history or input shape to reach.",
 }[variant]
 a = P["anchors"]
